@@ -1052,14 +1052,27 @@ def socks_judge(obs, want, overlong_field):
 PERM_DESTS = {'permitted': (R_HOST, R_PORT), 'otherhost': ('127.0.0.2', R_PORT),
               'otherport': (R_HOST, R_PORT + 1), 'alias': ('desthost', R_PORT)}
 KEY_OPTS = {'none': '', 'no-port-forwarding': 'no-port-forwarding',
+            'restrict': 'restrict',
             'permitopen-hp': f'permitopen="{R_HOST}:{R_PORT}"',
             'permitopen-hstar': f'permitopen="{R_HOST}:*"'}
 _creds = {}
 
 
-def credentials(key_opt, cert):
+CERT_SETS = {       # permit-* extensions a certificate carries
+    'empty': (), 'pf': ('port_forwarding',), 'pty': ('pty',),
+    'x11': ('x11_forwarding',), 'agent': ('agent_forwarding',),
+    'rc': ('user_rc',),
+    'without': ('x11_forwarding', 'agent_forwarding', 'pty', 'user_rc'),
+    'with': ('x11_forwarding', 'agent_forwarding', 'port_forwarding', 'pty',
+             'user_rc')}
+CERT_CRIT = {'none': {}, 'force-command': {'force_command': 'true'},
+             'source-ok': {'source_address': ['127.0.0.0/8']},
+             'source-bad': {'source_address': ['10.9.8.0/24']}}
+
+
+def credentials(key_opt, cert, crit='none'):
     """(authorized_keys object for the server, client_keys for the client)"""
-    ck = (key_opt, cert)
+    ck = (key_opt, cert, crit)
     if ck not in _creds:
         k = keys()
         opts = KEY_OPTS[key_opt]
@@ -1070,9 +1083,15 @@ def credentials(key_opt, cert):
         else:
             pub = k['ca'].export_public_key('openssh').decode().strip()
             line = 'cert-authority' + (',' + opts if opts else '') + ' ' + pub
+            exts = {f'permit_{e}': e in CERT_SETS[cert]
+                    for e in CERT_SETS['with']}
             c = k['ca'].generate_user_certificate(
-                k['user'], 'c20-user', principals=['user'],
-                permit_port_forwarding=(cert == 'with'))
+                k['user'], 'c20-user', principals=['user'], **exts,
+                **CERT_CRIT[crit])
+            want = {'permit-' + e.replace('_', '-') for e in CERT_SETS[cert]}
+            got = {o.lower() for o in c.options if o.startswith('permit-')}
+            if got != want:
+                raise RuntimeError(f'certificate {cert}: options {got}')
             client_keys = [(k['user'], c)]
         _creds[ck] = (line, client_keys)
     line, client_keys = _creds[ck]
@@ -1103,7 +1122,8 @@ def perm_case(row, cancel=False):
            'listener_after_cancel': None, 'left': [], 'auth_ok': False,
            'exceptions': []}
     req, app_ans = row['req'], row['app']
-    akeys, client_keys = credentials(row['key'], row['cert'])
+    akeys, client_keys = credentials(row['key'], row['cert'],
+                                     row.get('crit', 'none'))
     k = keys()
     state = {}
 
